@@ -151,8 +151,8 @@ _race_bins = {
 PROPS['C19'] = dict(
     level='exploration', builds=_race_bins, post=_racepost,
     stages=[
-        dict(name='free', bin='races_a', shards=shards(11, 22), par=11, env={'GORACE': _GOR}, timeout=1800, replay='rerun'),
-        dict(name='delays', bin='races_b', shards=shards(11, 22), par=11, env={'GORACE': _GOR}, timeout=1800, replay='rerun', group='g2'),
+        dict(name='free', bin='races_a', shards=shards(12, 24), par=12, env={'GORACE': _GOR}, timeout=1800, replay='rerun'),
+        dict(name='delays', bin='races_b', shards=shards(12, 24), par=12, env={'GORACE': _GOR}, timeout=1800, replay='rerun', group='g2'),
         dict(name='w-pbuf', bin='pbuf_race', args=['-prop', 'C06', '-mode', 'conc'], shards=shards(2, 4), par=8, env={'GORACE': _GOR}, group='g3', replay='rerun'),
         dict(name='w-tbf', bin='vfilter_race', args=['-prop', 'C15'], shards=shards(1, 2), par=8, env={'GORACE': _GOR}, group='g3', replay='rerun'),
         dict(name='w-delay', bin='vfilter_race', args=['-prop', 'C14'], shards=shards(1, 2), par=8, env={'GORACE': _GOR}, group='g3', replay='rerun'),
@@ -163,7 +163,7 @@ PROPS['C19'] = dict(
         dict(name='w-trace', bin='vtrace_race', args=['-prop', 'C01'], shards=shards(2, 4), par=8, env={'GORACE': _GOR}, group='g3', replay='rerun'),
         dict(name='w-deadline', bin='dl_race', args=['-mode', 'real'], shards=shards(1, 2), par=8, env={'GORACE': _GOR}, group='g3', replay='rerun'),
     ],
-    need_counters=['workloads_run'] + ['operations_' + w for w in ('build', 'socket', 'bind', 'tbf', 'filters', 'buffer', 'deadline', 'dpipe', 'listener', 'netctx', 'bridge')],
+    need_counters=['workloads_run'] + ['operations_' + w for w in ('build', 'socket', 'bind', 'tbf', 'filters', 'buffer', 'deadline', 'dpipe', 'listener', 'netctx', 'bridge', 'nat')],
 )
 
 # safety net: a child that dies with a panic / fatal error and a pion/transport frame in the trace is a violation for every stage
